@@ -56,15 +56,31 @@ def _assign_loop(p):
         cfg = build_cfg(p, fr)
         prov = Provenance(cfg)
         best = None
+        engines = {"read_data_section_iterative_normal_engine", "read_data_section_iterative_numpy_engine"}
+        over_columns = []
         for sub in walk_shallow(fr.node):
+            if isinstance(sub, ast.For):
+                nids = cfg.nodes_for(sub)
+                base_ = sub.iter
+                while isinstance(base_, ast.Call) and base_.args and ast.unparse(base_.func).split(".")[-1] in (
+                        "enumerate", "islice", "zip", "iter", "list", "tuple", "reversed"):
+                    base_ = base_.args[0]
+                # the iterated object itself is (an iterator over) the engine's result - a range over a count derived from it is not
+                if nids and isinstance(base_, ast.Name) and {a[1] for a in prov.atoms(base_, nids[0]) if a[0] == "callname"} & engines:
+                    over_columns.append(sub)
             if isinstance(sub, ast.For) and _elem_name(sub) is not None:
                 nids = cfg.nodes_for(sub)
                 if not nids:
                     continue
                 atoms = prov.atoms(_iter_source(sub), nids[0])
                 names = {a[1] for a in atoms if a[0] == "callname"}
-                if names & {"read_data_section_iterative_normal_engine", "read_data_section_iterative_numpy_engine"}:
+                if names & engines:
                     best = sub
+        if len(over_columns) > 1:
+            from sa import ShapeNotRecognised
+            raise ShapeNotRecognised("the columns of the data section are bound to the curves by %d loops over the engine's result (lines %s): "
+                                     "the single assignment loop the column clauses reason about is not there" % (
+                                         len(over_columns), ", ".join(str(l_.lineno) for l_ in over_columns)))
         if best is not None:
             return fr, cfg, prov, best
     raise AnalysisError("cannot find the loop over the data-section columns in LASFile.read or its helpers")
@@ -912,6 +928,60 @@ def rule_splitter_guard(ctx):
     ctx.floor("DATA.SPLIT-GUARD", 2)
 
 
+# ------------------------------------------------------------------------------------------------ DATA.SINGLE-PASS
+
+def rule_single_pass(ctx):
+    """DATA.SINGLE-PASS: the reference engine hands out its columns through a generator.  Once an iterator `it = iter(g)` has been
+    made over it, every consumer must go through `it`: iterating g itself again (a second `for`, an `islice(g, n, None)`) starts
+    from wherever `it` stopped for a generator and from the beginning for an array - the two engines then bind different
+    columns to the same curve."""
+    p = ctx.p
+    engines = {"read_data_section_iterative_normal_engine", "read_data_section_iterative_numpy_engine"}
+    n = 0
+    for fr in read_family(p):
+        srcs = set()
+        for a_ in walk_shallow(fr.node):
+            if isinstance(a_, ast.Assign) and len(a_.targets) == 1 and isinstance(a_.targets[0], ast.Name) and isinstance(a_.value, ast.Call) \
+                    and ast.unparse(a_.value.func).split(".")[-1] in engines:
+                srcs.add(a_.targets[0].id)
+        if not srcs:
+            continue
+        iters = {}      # iterator name -> source name
+        for a_ in walk_shallow(fr.node):
+            if isinstance(a_, ast.Assign) and len(a_.targets) == 1 and isinstance(a_.targets[0], ast.Name) and isinstance(a_.value, ast.Call) \
+                    and isinstance(a_.value.func, ast.Name) and a_.value.func.id == "iter" and len(a_.value.args) == 1 \
+                    and isinstance(a_.value.args[0], ast.Name) and a_.value.args[0].id in srcs:
+                iters[a_.targets[0].id] = a_.value.args[0].id
+
+        def consumed_names(e):
+            while isinstance(e, ast.Call) and e.args and ast.unparse(e.func).split(".")[-1] in ("enumerate", "islice", "zip", "list", "tuple", "reversed"):
+                e = e.args[0]
+            return e.id if isinstance(e, ast.Name) else None
+        direct = []
+        for sub in walk_shallow(fr.node):
+            its = [sub.iter] if isinstance(sub, ast.For) else ([g.iter for g in sub.generators] if isinstance(
+                sub, (ast.ListComp, ast.SetComp, ast.GeneratorExp, ast.DictComp)) else [])
+            for it in its:
+                nm = consumed_names(it)
+                if nm in srcs:
+                    direct.append((sub, nm))
+        n += 1
+        site = "%s#columns-consumers" % fr.qual
+        both = [(sub, nm) for sub, nm in direct if nm in iters.values()]
+        if both:
+            ctx.bad("DATA.SINGLE-PASS", site, fr, both[0][0], "`%s` is consumed through the iterator `%s` and iterated directly as well (`%s`): for the "
+                    "reference engine's generator the second consumer starts where the iterator stopped, for the fast engine's array "
+                    "at the first column - surplus columns are dropped or shifted with one engine only" % (
+                        both[0][1], next(k for k, v in iters.items() if v == both[0][1]),
+                        unparse(both[0][0].iter if isinstance(both[0][0], ast.For) else both[0][0])))
+        else:
+            ctx.ok("DATA.SINGLE-PASS", site, fr, fr.node, "the engine's result has one kind of consumer (%d direct loop(s), %d iterator(s))"
+                   % (len(direct), len(iters)))
+    if n == 0:
+        ctx.undecided("DATA.SINGLE-PASS", READ + "#columns-consumers", p.func(READ), p.func(READ).node, "no variable bound to an engine call found")
+    ctx.floor("DATA.SINGLE-PASS", 0)
+
+
 # ------------------------------------------------------------------------------------------------ DATA.TOKENIZER / TRIM
 
 def rule_tokenizer(ctx):
@@ -1210,6 +1280,17 @@ def rule_reshape(ctx):
         for k in c.keywords:
             if k.arg == "order" and not (isinstance(k.value, ast.Constant) and k.value.value in ("C", None)):
                 problems.append("reshape uses order=%s: tokens are laid out column-major, cells are displaced" % unparse(k.value))
+    # "there is no data" is a statement about the number of tokens, not about their values: a test that sets the column count to
+    # zero must not look at the values (`array.any()` is False for a section of zeros)
+    for sub in walk_shallow(fe.node):
+        if isinstance(sub, ast.If) and any(isinstance(a_, ast.Assign) and isinstance(a_.value, ast.Constant) and a_.value.value == 0
+                                           and not isinstance(a_.value.value, bool)
+                                           and any(isinstance(t_, ast.Name) and "col" in t_.id for t_ in a_.targets) for a_ in sub.body):
+            byvalue = [c_ for c_ in ast.walk(sub.test) if isinstance(c_, ast.Call) and isinstance(c_.func, ast.Attribute)
+                       and c_.func.attr in ("any", "all", "sum", "nonzero", "count_nonzero", "max", "min")]
+            if byvalue:
+                problems.append("the empty-section test `%s` looks at the values: a data section that holds only zeros is treated as "
+                                "empty by the reference engine and raises, while the fast engine reads it" % unparse(sub.test))
     # columns are yielded as array[:, j] for j in range(n)
     yields = [y for y in walk_shallow(fe.node) if isinstance(y, ast.Yield)]
     col_loops = [l for l in walk_shallow(fe.node) if isinstance(l, ast.For) and any(isinstance(y, ast.Yield) for y in ast.walk(l))]
@@ -1228,6 +1309,22 @@ def rule_reshape(ctx):
                     if not (isinstance(s.slice.elts[0], ast.Slice) and isinstance(s.slice.elts[1], ast.Name)):
                         problems.append("columns are taken as `%s` instead of array[:, j]" % unparse(s))
         else:
+            # the rows of the transposed 2-D array, in order: `for [i,] col in [enumerate](array.T)` (array.T bound to a local, [] when
+            # there is nothing to hand out) is the same sequence of columns
+            it_ = l.iter
+            if isinstance(it_, ast.Call) and isinstance(it_.func, ast.Name) and it_.func.id == "enumerate" and len(it_.args) == 1 and not it_.keywords:
+                it_ = it_.args[0]
+            srcs = [it_]
+            if isinstance(it_, ast.Name):
+                srcs = [a_.value for a_ in walk_shallow(fe.node) if isinstance(a_, ast.Assign) and any(
+                    isinstance(t_, ast.Name) and t_.id == it_.id for t_ in a_.targets)]
+            def _transposed(e_):
+                return (isinstance(e_, ast.Attribute) and e_.attr == "T" and isinstance(e_.value, ast.Name)) or (
+                    isinstance(e_, ast.Call) and ast.unparse(e_.func).split(".")[-1] == "transpose" and len(e_.args) == 1 and not e_.keywords)
+            def _nothing(e_):
+                return isinstance(e_, (ast.List, ast.Tuple)) and not e_.elts
+            if srcs and any(_transposed(e_) for e_ in srcs) and all(_transposed(e_) or _nothing(e_) for e_ in srcs):
+                okcol = True
             if not okcol:
                 problems.append("columns are not produced for j in range(n) in order (`%s`)" % unparse(l.iter))
     if not okcol and not problems:
@@ -1669,6 +1766,36 @@ def rule_wrap_consistent(ctx):
                       "`%s` does not derive the default from WRAP == 'YES'" % unparse(s_))
     if n == 0:
         ctx.undecided("WR.WRAP-CONSISTENT", "writer.write#wrap", fw, fw.node, "no wrapping branch / WRAP store found in a recognised form")
+    # 3. the section that is written is a deep copy of las.version: a WRAP item stored on las.version *after* the copy was taken
+    # must be stored on the copy as well (same block), or the file says the old WRAP above data laid out for the new one
+    copies = [a_ for a_ in walk_shallow(fw.node) if isinstance(a_, ast.Assign) and len(a_.targets) == 1 and isinstance(a_.targets[0], ast.Name)
+              and isinstance(a_.value, ast.Call) and ast.unparse(a_.value.func).split(".")[-1] == "deepcopy" and a_.value.args
+              and ast.unparse(a_.value.args[0]).endswith(".version")]
+    if len(copies) == 1:
+        cp = copies[0]
+        cname = cp.targets[0].id
+
+        def wrap_store(st_, base_pred):
+            if not (isinstance(st_, ast.Assign) and len(st_.targets) == 1):
+                return False
+            t_ = st_.targets[0]
+            key = (t_.slice.value if isinstance(t_, ast.Subscript) and isinstance(t_.slice, ast.Constant) else t_.attr if isinstance(t_, ast.Attribute) else None)
+            base = t_.value if isinstance(t_, (ast.Subscript, ast.Attribute)) else None
+            return key == "WRAP" and base is not None and base_pred(base)
+        for st_ in walk_shallow(fw.node):
+            if wrap_store(st_, lambda b_: ast.unparse(b_).endswith(".version")) and ordn(st_) > ordn(cp):
+                holder = None
+                for fld in ("body", "orelse", "finalbody"):
+                    blk = getattr(st_._parent, fld, None)
+                    if isinstance(blk, list) and any(x is st_ for x in blk):
+                        holder = blk
+                mate = holder is not None and any(wrap_store(x, lambda b_: isinstance(b_, ast.Name) and b_.id == cname)
+                                                 and ast.unparse(x.value) == ast.unparse(st_.value) for x in holder)
+                n += 1
+                ctx.check(mate, "WR.WRAP-CONSISTENT", "writer.write#wrap-on-written-copy(%s)" % unparse(st_.value, 30), fw, st_,
+                          "the WRAP item stored on las.version after the copy was taken is stored on the written copy too",
+                          "`%s` comes after `%s` and the copy does not receive the same item: the written ~Version keeps the old WRAP "
+                          "value above data that is laid out for the new one" % (unparse(st_), unparse(cp)))
     ctx.floor("WR.WRAP-CONSISTENT", 0)
 
 
@@ -1889,6 +2016,29 @@ def rule_subs_source(ctx):
     inspect_data_section (never a default such as the unmodified regexp_subs)"""
     p = ctx.p
     r = get_resolver(p)
+    # what the sniffer withdraws: the substitutions of the run-on keys it lists, never the whole READ_SUBS table (comma decimal
+    # marks and the other policies stay in force when every line contains a hyphen)
+    fs_ = p.func(SNIFF)
+    aliases = {"READ_SUBS"}
+    for a_ in walk_shallow(fs_.node):
+        if isinstance(a_, ast.Assign) and len(a_.targets) == 1 and isinstance(a_.targets[0], ast.Name) \
+                and ast.unparse(a_.value).split(".")[-1] == "READ_SUBS":
+            aliases.add(a_.targets[0].id)
+
+    def whole_table(e):
+        while isinstance(e, ast.Call) and isinstance(e.func, ast.Attribute) and e.func.attr in ("keys", "items", "values") and not e.args:
+            e = e.func.value
+        return (isinstance(e, ast.Name) and e.id in aliases) or (isinstance(e, ast.Attribute) and e.attr == "READ_SUBS")
+    over_all = []
+    for sub in ast.walk(fs_.node):
+        its = [sub.iter] if isinstance(sub, ast.For) else ([g.iter for g in sub.generators] if isinstance(
+            sub, (ast.ListComp, ast.SetComp, ast.GeneratorExp, ast.DictComp)) else [])
+        over_all += [it for it in its if whole_table(it)]
+    ctx.check(not over_all, "DATA.SUBS-SOURCE", SNIFF + "#withdrawn-set", fs_, over_all[0] if over_all else fs_.node,
+              "the sniffer withdraws only the substitutions of the keys it lists (it never iterates over the whole READ_SUBS table)",
+              "the sniffer collects the substitutions to withdraw by iterating over `%s`, i.e. over every read policy: when each sampled "
+              "line contains a hyphen the comma-decimal-mark substitution is withdrawn too and such values stay text (no NULL, no number)"
+              % (unparse(over_all[0]) if over_all else ""))
     fr = host_data(p)
     cfg = build_cfg(p, fr)
     rd = ReachingDefs(cfg)
